@@ -111,6 +111,38 @@ theorem digest_accepted (H : Alg → Bytes → Bytes) (hH : ∀ a x, (H a x).all
           cases hs : isSess c.algorithm <;>
           simp [hs, huh, response, issuedOf, issuedOfC, hnc1, hmem]
 
+/-- … and such a header IS a legal field value (the transport will not refuse it). -/
+theorem sendable_header_text (H : Alg → Bytes → Bytes) (hH : ∀ a x, (H a x).all isText = true)
+    (c : Challenge) (user pass method uri : Bytes) (rnd : Option Bytes) (hdr : Bytes)
+    (hx : Sendable c user uri)
+    (ha : authorize H algOf c { user, pass, method, uri } rnd = .ok hdr) : hdr.all isText = true := by
+  unfold authorize at ha
+  split at ha
+  · cases ha
+  · rename_i qop hsel
+    obtain ⟨_, hq⟩ := selectQop_ok hsel
+    split at ha
+    · cases ha
+    · cases ha
+    · rename_i alg r halg
+      simp only [Except.ok.injEq] at ha
+      subst ha
+      have hspec := algOf_spec halg
+      have halg' : c.algorithm = [] ∨ (c.algorithm ≠ [] ∧ c.algorithm.all isTokenByte = true) := by
+        rcases hspec with ⟨e, _, _⟩ | ⟨e1, e2, _⟩
+        · exact Or.inl e
+        · exact Or.inr ⟨e1, e2⟩
+      have hcn : ((hex r).take 32).all isText = true := all_text_of_qd (all_take 32 (hex_all_qd r))
+      have hnc1 : hex8 (0 + 1) = b!"00000001" := hex8_one
+      have hncok : hex8 (0 + 1) ≠ [] ∧ (hex8 (0 + 1)).all isTokenByte = true := by
+        rw [hnc1]; decide
+      have hqop' : qop = [] ∨ qop = b!"auth" := by
+        rcases hq with ⟨e, _, _⟩ | ⟨e, _, _⟩
+        · exact Or.inl e
+        · exact Or.inr e
+      exact header_text _ (params_okT (H alg) { c with qop := qop } { user, pass, method, uri } (hex8 (0 + 1))
+        ((hex r).take 32) (hH alg) hx.user hx.realm hx.nonce hx.uri hx.opaq halg' hqop' hncok hcn)
+
 /-! ### unsupported challenges, entropy, qop selection -/
 
 /-- A challenge the client can answer: registered algorithm, no qop or a qop list offering
@@ -561,5 +593,126 @@ theorem supported_resent (H : Alg → Bytes → Bytes)
   have hb : hdr.all isFieldByte = true := hall
   unfold handle
   simp [hcreate, hb]
+
+/-! ### non-vacuity: a response the as-found code could not read -/
+
+deriving instance DecidableEq for Except
+
+/-- a concrete hash for the examples: hex of the pre-image -/
+def exH : Alg → Bytes → Bytes := fun _ x => hex x
+
+theorem exH_text : ∀ a x, (exH a x).all isText = true := fun _ x => all_text_of_qd (hex_all_qd x)
+
+/-- first field line: `Basic realm="x, y",Negotiate abc==` -/
+def exLine1 : List Elem := [
+  ⟨[], .schemeParam b!"Basic" b!" " ⟨b!"realm", [], [], plainQ b!"x, y"⟩, []⟩,
+  ⟨[], .scheme68 b!"Negotiate" b!" " b!"abc==", []⟩]
+
+/-- second field line: a Digest challenge that cannot be answered (SHA-1), an empty element, then
+`digest  REALM = "a\"b, \c"` (quoted-pairs, one of them gratuitous, a comma inside),
+`nonce`, a qop LIST, `-sess` algorithm, userhash, opaque, stale, an unknown parameter -/
+def exLine2 : List Elem := [
+  ⟨[], .schemeParam b!"Digest" b!" " ⟨b!"realm", [], [], plainQ b!"old"⟩, []⟩,
+  ⟨b!" ", .param ⟨b!"nonce", [], [], plainQ b!"n0"⟩, []⟩,
+  ⟨b!" ", .param ⟨b!"algorithm", [], [], .tok b!"SHA-1"⟩, b!" "⟩,
+  ⟨b!" ", .empty, []⟩,
+  ⟨b!"\t", .schemeParam b!"digest" b!"  " ⟨b!"REALM", b!" ", b!" ",
+      .quo [(97, false), (34, true), (98, false), (44, false), (32, false), (99, true)]⟩, b!" "⟩,
+  ⟨[], .param ⟨b!"Nonce", [], [], plainQ b!"n=1"⟩, []⟩,
+  ⟨b!" ", .param ⟨b!"qop", [], [], plainQ b!"auth-int, auth"⟩, []⟩,
+  ⟨b!" ", .param ⟨b!"algorithm", [], b!"\t", .tok b!"SHA-256-sess"⟩, []⟩,
+  ⟨b!" ", .param ⟨b!"userhash", [], [], .tok b!"true"⟩, []⟩,
+  ⟨b!" ", .param ⟨b!"opaque", [], [], plainQ b!"o\\"⟩, []⟩,
+  ⟨b!" ", .param ⟨b!"stale", [], [], .tok b!"true"⟩, []⟩,
+  ⟨b!" ", .param ⟨b!"x-ext", [], [], plainQ b!"\"q\""⟩, []⟩]
+
+example : lineRender exLine1 = b!"Basic realm=\"x, y\",Negotiate abc==" := by decide
+
+set_option maxRecDepth 100000 in
+example : lineRender exLine2 =
+    b!"Digest realm=\"old\", nonce=\"n0\", algorithm=SHA-1 , ,\tdigest  REALM = \"a\\\"b, \\c\" ,Nonce=\"n=1\", qop=\"auth-int, auth\", algorithm=\tSHA-256-sess, userhash=true, opaque=\"o\\\\\", stale=true, x-ext=\"\\\"q\\\"\"" := by
+  decide
+
+theorem exOK : ∀ l ∈ [exLine1, exLine2], ∀ x ∈ l, x.OK := by decide
+
+def exChals : List SChal := [
+  { scheme := b!"Basic", params := [(b!"realm", b!"x, y")] },
+  { scheme := b!"Negotiate", t68 := some b!"abc==" },
+  { scheme := b!"Digest", params := [(b!"realm", b!"old"), (b!"nonce", b!"n0"), (b!"algorithm", b!"SHA-1")] },
+  { scheme := b!"digest", params := [(b!"realm", b!"a\"b, c"), (b!"nonce", b!"n=1"), (b!"qop", b!"auth-int, auth"),
+      (b!"algorithm", b!"SHA-256-sess"), (b!"userhash", b!"true"), (b!"opaque", b!"o\\"), (b!"stale", b!"true"),
+      (b!"x-ext", b!"\"q\"")] }]
+
+deriving instance DecidableEq for SChal
+
+set_option maxRecDepth 100000 in
+theorem exMeaning : meaning ([exLine1, exLine2].flatten.map (·.e)) = some exChals := by decide
+
+def exIssued : Issued :=
+  { realm := b!"a\"b, c", nonce := b!"n=1", opaq := some b!"o\\", algorithm := some b!"SHA-256-sess",
+    qops := [b!"auth-int", b!"auth"], userhash := true }
+
+theorem exDescribes : Describes
+    [(b!"realm", b!"a\"b, c"), (b!"nonce", b!"n=1"), (b!"qop", b!"auth-int, auth"),
+      (b!"algorithm", b!"SHA-256-sess"), (b!"userhash", b!"true"), (b!"opaque", b!"o\\"), (b!"stale", b!"true"),
+      (b!"x-ext", b!"\"q\"")] exIssued where
+  realm := by decide
+  nonce := by decide
+  opaq := by decide
+  opaqNe := by decide
+  algorithm := by decide
+  algorithmNe := by decide
+  qop := by decide
+  userhash := by decide
+
+def exChal : Challenge :=
+  { realm := b!"a\"b, c", nonce := b!"n=1", qop := b!"auth-int, auth", algorithm := b!"SHA-256-sess",
+    userhash := b!"true", opaq := b!"o\\", stale := b!"true" }
+
+set_option maxRecDepth 100000 in
+theorem exFind : (exChals.filterMap digestOf).find? (answerable algOf) = some exChal := by decide
+
+def exRnd : Bytes := [0, 1, 2, 3, 4, 5, 6, 7, 8, 9, 10, 11, 12, 13, 14, 15]
+
+/-- `digest_accepted_wire` is not vacuous: the response above (two field lines; Basic with a quoted
+comma, a token68 challenge, an unanswerable Digest challenge, then one with quoted-pairs, a
+comma in the realm, BWS, a qop list, mixed-case names, an empty element and an unknown parameter)
+IS answered for the account `Mufasa` / a password and a target that contain quotes and
+backslashes, and the answer is accepted by the verifier holding what the server issued. -/
+example : ∃ hdr, handle exH algOf b!"Mu\"fasa\\" b!"Circle \"of\" Life" b!"GET" b!"/dir/index.html?a=\"b\"" .none (some exRnd)
+      { err := false, status := 401, wwwAuth := [exLine1, exLine2].map lineRender } = .resend hdr none ∧
+    verify exH specAlg
+      { issued := exIssued, method := b!"GET", uri := b!"/dir/index.html?a=\"b\"", user := b!"Mu\"fasa\\",
+        pass := b!"Circle \"of\" Life" } hdr = true := by
+  obtain ⟨hdr, hcreate, hres⟩ := supported_resent exH [exLine1, exLine2] (by decide) (by decide) exOK exChals
+    exMeaning exChal exFind b!"Mu\"fasa\\" b!"Circle \"of\" Life" b!"GET" b!"/dir/index.html?a=\"b\"" exRnd
+  have hauth : authorize exH algOf exChal
+      { user := b!"Mu\"fasa\\", pass := b!"Circle \"of\" Life", method := b!"GET", uri := b!"/dir/index.html?a=\"b\"" }
+      (some exRnd) = .ok hdr := by
+    unfold createDigestAuth at hcreate
+    simp only at hcreate
+    split at hcreate
+    · cases hcreate
+    · rw [parse_faithful_lines [exLine1, exLine2] (by decide) (by decide) exOK exChals exMeaning,
+        pick_of_find exFind] at hcreate
+      exact hcreate
+  have htext := sendable_header_text exH exH_text exChal _ _ _ _ _ hdr
+    ⟨Or.inl rfl, by decide, by decide, by decide, by decide⟩ hauth
+  have hr := hres htext
+  obtain ⟨ch, hch, _, hfind, hv⟩ := digest_accepted_wire exH exH_text [exLine1, exLine2] (by decide) (by decide) exOK
+    exChals exMeaning _ _ _ _ [] _ hdr hr
+  refine ⟨hdr, hr, ?_⟩
+  rw [exFind] at hfind
+  -- the challenge answered is the fourth one
+  have hps : ch.params = [(b!"realm", b!"a\"b, c"), (b!"nonce", b!"n=1"), (b!"qop", b!"auth-int, auth"),
+      (b!"algorithm", b!"SHA-256-sess"), (b!"userhash", b!"true"), (b!"opaque", b!"o\\"), (b!"stale", b!"true"),
+      (b!"x-ext", b!"\"q\"")] := by
+    simp only [exChals, List.mem_cons, List.not_mem_nil, or_false] at hch
+    rcases hch with rfl | rfl | rfl | rfl
+    · revert hfind; decide
+    · revert hfind; decide
+    · revert hfind; decide
+    · rfl
+  exact hv exIssued (hps ▸ exDescribes)
 
 end Req.Props.C20
